@@ -153,9 +153,10 @@ impl Property for C17S {
             sub_delay: rng.range(1, 30) as u16,
             init_ccr: Some(if irqs && rng.chance(1, 3) { 0x80 } else { rng.u8() & 0x7f }),
             stack_off: if rng.chance(1, 2) { 0 } else { 4 * rng.below(64) as u16 },
+            exit_style: if rng.chance(1, 2) { 0 } else { rng.below(5) as u8 },
         };
         let est = super::c10::estimate_iters(&guest);
-        Scn { guest, cfg: SysCfg { wait_start: false, clock: ClockModel::Fast, clock_seed: 0, step_cap: est * 5 + 100_000, print_msgs: false } }
+        Scn { guest, cfg: SysCfg { wait_start: false, clock: ClockModel::Fast, clock_seed: 0, step_cap: est * 5 + 100_000, print_msgs: false, print_opcode: false } }
     }
 
     fn execute(scn: &Scn, stats: &mut Stats) -> Verdict {
